@@ -320,8 +320,10 @@ def correct_names(name, val):
     :param val: the variable name we are modifying
     :return: the new name to use
     """
+    # only a name the compiler mangled (_Class__name) is renamed; an attribute whose name merely begins like the class
+    # (_Classy of class Class) is shown under its own name
     prefix = "_" + name
-    if val.startswith(prefix):
+    if val.startswith(prefix + "__"):
         return val[len(prefix):]
     return val
 
